@@ -362,11 +362,13 @@ _ROWS = {}
 
 def rows_of(op):
     """JSON rows of the entries an op submits (memoised on the op)"""
-    r = _ROWS.get(id(op))
-    if r is None:
-        r = frozenset(json.dumps(expect_row(e)) for e in entries_of(op))
-        _ROWS[id(op)] = r
-    return r
+    # the op object itself is kept in the memo: as long as it is referenced its id cannot be handed to another object
+    # (histories run concurrently in one process and free their ops when they end; a bare id() key was reused by later ops)
+    ent = _ROWS.get(id(op))
+    if ent is None or ent[0] is not op:
+        ent = (op, frozenset(json.dumps(expect_row(e)) for e in entries_of(op)))
+        _ROWS[id(op)] = ent
+    return ent[1]
 
 
 def expect_row(e):
@@ -572,6 +574,44 @@ def check_applied(table, markers, rec):
     if la > top:
         return [("last-applied-beyond-log-and-snapshot", {"last_applied": la, "reproducible_up_to": top})]
     return []
+
+
+def continue_after_recovery(d, n=140):
+    """the recovered store must stay a store: n further appends (more than one index interval of 128) are acknowledged, and after a
+    quiescent reopen the log is contiguous and ends exactly n entries later. Returns None or (clause, detail)."""
+    try:
+        s = Session(d)
+    except SessionDied:
+        return None         # recovery failures are check_image's business
+    try:
+        h = s.call("read", lo=0, hi=10**9, compact=True)
+        if not h.get("ok"):
+            return None
+        last = h.get("last")
+        lo = last[0] if last else 0
+        term = max(last[1] if last else 1, (s.ready.get("state") or {}).get("hard_state", {}).get("current_term", 1) if isinstance(s.ready.get("state"), dict) else 1)
+        uid = 990000
+        for j in range(lo + 1, lo + 1 + n):
+            uid += 1
+            a = s.call("append", index=j, term=term, uid=uid, len=12)
+            if not a.get("ok"):
+                return ("continuation-after-recovery/append-refused", {"recovered_last": last, "append_index": j, "answer": a})
+        s.call("sync")
+        time.sleep(0.1)
+        s.kill()
+        s = Session(d)
+        h2 = s.call("read", lo=0, hi=10**9, compact=True)
+        if not h2.get("ok"):
+            return ("continuation-after-recovery/unreadable-after-reopen", {"recovered_last": last, "answer": h2})
+        l2 = h2.get("last")
+        if not l2 or l2[0] != lo + n or not h2.get("contiguous", True) or (l2[3] != uid):
+            return ("continuation-after-recovery/entries-lost-or-misnumbered", {"recovered_last": last, "appended": n, "expected_last_index": lo + n, "expected_last_uid": uid,
+                                                                                 "after_reopen_last": l2, "count_after_reopen": h2.get("count"), "contiguous": h2.get("contiguous")})
+        return None
+    except SessionDied as e:
+        return ("continuation-after-recovery/session-died", {"during": str(e)})
+    finally:
+        s.kill()
 
 
 def windows(recs):
